@@ -456,7 +456,8 @@ class BaseInput:
 
         # If file is already a DataFrame
         if isinstance(file, pd.DataFrame):
-            self._dataframe = file.astype(str)
+            # Missing cells (NaN/None) are n/a, as they are when a text file is read.
+            self._dataframe = file.astype(str).fillna("n/a")
             self._has_column_names = self._dataframe_has_names(self._dataframe)
             return
 
@@ -482,7 +483,8 @@ class BaseInput:
         try:
             self._loaded_workbook = openpyxl.load_workbook(file)
             loaded_worksheet = self.get_worksheet(self._worksheet_name)
-            self._dataframe = self._get_dataframe_from_worksheet(loaded_worksheet, has_column_names)
+            # Empty cells are n/a, as they are when a text file is read.
+            self._dataframe = self._get_dataframe_from_worksheet(loaded_worksheet, has_column_names).fillna("n/a")
         except Exception as e:
             raise HedFileError(HedExceptions.INVALID_FILE_FORMAT, f"Failed to load Excel file: {str(e)}", self.name) from e
 
